@@ -681,6 +681,27 @@ func (se *specEnv) evalCall(n *SCall) (specVal, error) {
 	case "typeis":
 		// typeis(x, "pkg.Type") for interface values: dynamic type test by registered name
 		return specVal{}, fmt.Errorf("typeis not supported")
+	case "closed":
+		as, err := args()
+		if err != nil {
+			return specVal{}, err
+		}
+		cl := e.lookup(se.cur, "G$closedchans", ArraySort(SInt, SBool))
+		return specVal{t: Select(cl, as[0].t)}, nil
+	case "tickerPeriod", "timerDelay":
+		as, err := args()
+		if err != nil {
+			return specVal{}, err
+		}
+		h := e.lookup(se.cur, "G$"+n.Fn, ArraySort(SInt, SInt))
+		return specVal{t: Select(h, as[0].t)}, nil
+	case "timerStopped":
+		as, err := args()
+		if err != nil {
+			return specVal{}, err
+		}
+		h := e.lookup(se.cur, "G$timerStopped", ArraySort(SInt, SBool))
+		return specVal{t: Select(h, as[0].t)}, nil
 	case "formatUint":
 		as, err := args()
 		if err != nil {
@@ -775,6 +796,9 @@ func (se *specEnv) modTargets(m ModLoc) ([]modTarget, error) {
 	e := se.e
 	switch x := m.Expr.(type) {
 	case *SIdent:
+		if srt, ok := builtinGhosts[x.Name]; ok {
+			return []modTarget{{heap: "G$" + x.Name, sort: srt, whole: true}}, nil
+		}
 		if g, ok := e.prog.cs.Ghosts[x.Name]; ok {
 			srt, err := ghostSort(g.Type)
 			if err != nil {
@@ -970,6 +994,15 @@ func (se *specEnv) typed(v Term, t types.Type) {
 		return
 	}
 	ra := se.e.tr.rangeAssumption(v, t, 0)
+	// references stored in the heap of a state were allocated before that state
+	switch t.Underlying().(type) {
+	case *types.Pointer, *types.Map, *types.Chan, *types.Signature:
+		if v.Sort == SInt {
+			ra = And(ra, App(SBool, "<=", v, se.e.lookup(se.cur, "alloc", SInt)))
+		}
+	case *types.Slice:
+		ra = And(ra, App(SBool, "<=", App(SInt, "sref", v), se.e.lookup(se.cur, "alloc", SInt)))
+	}
 	if ra.S == "true" || se.e.typedSeen[ra.S] {
 		return
 	}
@@ -1042,4 +1075,14 @@ func triggerPatterns(body string, vars []string) []string {
 		pats = pats[:4]
 	}
 	return pats
+}
+
+// builtinGhosts: ghost state maintained by the trusted library contracts.
+var builtinGhosts = map[string]string{
+	"closedchans":  ArraySort(SInt, SBool),
+	"timerStopped": ArraySort(SInt, SBool),
+	"tickerPeriod": ArraySort(SInt, SInt),
+	"timerDelay":   ArraySort(SInt, SInt),
+	"env":          ArraySort(SString, SString),
+	"envset":       ArraySort(SString, SBool),
 }
